@@ -475,26 +475,6 @@ theorem C03_files_tmp_not_dat (root ref data : Bytes) (n : Nat) :
   rw [show blobDirectory root ref ++ 47 :: (ref ++ dotDat) = (blobDirectory root ref ++ 47 :: ref) ++ dotDat by simp]
   exact hasSuffix_append _ _
 
-/-- the paths a receive may take through an effect list: the success path, or the error path of a call
-that fails -/
-def IsPath (l : List EffAt) (path : List Eff) : Prop :=
-  path = successPath l ∨ ∃ k, k ≤ (spine l).length ∧ path = errorPath l k
-
-theorem scan_of_pred (l : List EffAt) (h : CrashSafePred l = true) (path : List Eff) (hp : IsPath l path) :
-    ∃ a, scan 0 path = some a := by
-  simp only [CrashSafePred, Bool.and_eq_true, beq_iff_eq, List.all_eq_true, List.mem_range] at h
-  rcases hp with hp | ⟨k, hk, hp⟩
-  · exact ⟨4, by rw [hp]; exact h.1⟩
-  · have := h.2 k (by omega)
-    rw [hp]
-    cases hs : scan 0 (errorPath l k) with
-    | none => rw [hs] at this; cases this
-    | some a => exact ⟨a, rfl⟩
-
-/-- a VFS as a restart finds it: nothing un-synced, and `TempFile` will not hand out an existing name -/
-def Restarted (c : Ctx) (v0 : VFS) : Prop :=
-  (∀ f ∈ v0.files, f.dur = f.cur) ∧ (∀ f ∈ v0.files, ∀ n, v0.counter ≤ n → f.path ≠ tmpName c.dir c.pfx n)
-
 /-- **files store, every crash instant**: for EVERY effect order satisfying `CrashSafePred`, every path
 through it (success or any failing call), every prefix `k` of that path and every amount `j` of
 un-synced data that survives: after the crash every file at the blob's path is either a file that
